@@ -5,7 +5,7 @@ import json
 
 import vlib
 
-RULE03 = ("TLC enumerates room version 1-11 x 11 event shapes (join, invite, third-party invite, restricted join, create, "
+RULE03 = ("TLC enumerates room version 1-11 x 16 event shapes (join, invite, third-party invite, restricted join, create, "
           "power_levels, join_rules, aliases, redaction, history_visibility, message) x all signer subsets of {sender's server, "
           "event-ID's server, authorising server} x one step (none / redacted copy / other `unsigned` / mutation of each top-level, "
           "content and third_party_invite key incl. `hashes` / dropping one signature), proves the sentences of the property as "
@@ -41,6 +41,11 @@ def run(rep, tier):
             rep.violation("eventsig/hash_and_sign-failed", {"case": brief(c)})
         if o["verify"] != c["expected"]:
             step = c["step"][0]
+            # the one recorded deviation: join_authorised_via_users_server demands a signature on events that are not joins
+            # (exactly what the "any event" reading of the model gives; anything else is reported as usual)
+            if c["shape"] in ("leavej", "messagej") and o["verify"] == c["expected_any_event"]:
+                rep.violation("eventsig/authorising-server-demanded-although-the-event-is-not-a-join/%s" % c["shape"], {"case": brief(c), "observed": o["verify"], "expected": c["expected"]})
+                continue
             rep.violation("eventsig/%s/got-%s-expected-%s" % (step, o["verify"], c["expected"]), {"case": brief(c), "observed": o["verify"], "top": c["top"], "content": c["content"]})
     rep.sample({"case": brief(cases[5000]), "observed": obs[5000]["verify"]})
     rep.cov["evaluations"] = len(cases)
